@@ -222,9 +222,10 @@ func tryValidate(signer etypes.Signer, tx *appTx) error {
 
 	_, err := etypes.Sender(signer, tx.tx)
 	if err != nil {
-		atomic.StoreInt32(&tx.status, appTxStatusFailed)
-		verifhook.Gate("evm.tryValidate.failed")
+		// publish the error before the status: the executor reads tx.err as soon as it sees appTxStatusFailed
 		tx.err = err
+		verifhook.Gate("evm.tryValidate.failed")
+		atomic.StoreInt32(&tx.status, appTxStatusFailed)
 		return err
 	}
 
